@@ -124,7 +124,7 @@ func (fx *FuncVC) modularCall(fn *ssa.Function, spec *FuncSpec, spkg *PkgInfo, a
 	fx.bindParams(env, fn, args)
 	// implicit: pointer receiver is not nil
 	if fn.Signature.Recv() != nil && len(args) > 0 && spec.Options["nilable-receiver"] == "" {
-		if p, ok := args[0].(PtrV); ok && p.Kind != pkCell {
+		if p, ok := args[0].(PtrV); ok && p.Kind != pkCell && p.Kind != pkElem && len(p.Path) == 0 {
 			fx.oblige("call-pre", Not(Eq(ptrRefLoose(p), IntC(0))), pos, "receiver of "+fn.Name()+" is not nil")
 		}
 	}
@@ -502,19 +502,16 @@ func (fx *FuncVC) frameAxiom(name string, old, nh T, regions []region, allocBefo
 				allocBefore.S, nh.S, old.S, nh.S, old.S)
 			fx.assume(T{rowQ, SBool})
 		} else {
-			var bases []T
+			// a row is preserved wholesale unless it is the backing array of a NON-EMPTY region
+			var neq []T
 			for _, rg := range regions {
 				if rg.elem && !rg.all && rg.cell == nil {
 					for _, l := range fx.leavesOf(rg.root) {
 						if elemHeapName(rg.root, l.Path) == name {
-							bases = append(bases, rg.base)
+							neq = append(neq, Or(Not(Eq(b, rg.base)), Le(rg.hi, rg.lo, true)))
 						}
 					}
 				}
-			}
-			var neq []T
-			for _, bb := range bases {
-				neq = append(neq, Not(Eq(b, bb)))
 			}
 			rowQ := fmt.Sprintf("(forall ((fb? Int)) (! (=> (and (< fb? %s) %s) (= (select %s fb?) (select %s fb?))) :pattern ((select %s fb?)) :pattern ((select %s fb?))))",
 				allocBefore.S, And(neq...).S, nh.S, old.S, nh.S, old.S)
